@@ -13,10 +13,10 @@ import (
 
 func init() {
 	seqChecks["c04"] = &seqCheck{run: runC04, replay: replayC04,
-		rule: "request kind {access,get,call.m,call.new,call.zz,auth.m,auth.zz} x registration {none, other handlers only, exact, *, new, no-access} x payload {empty, {}, full, malformed, isHttp} x every handler script of length<=3 (4 thorough) over 13 actions, each on a fresh real service under the scheduler (exact quiescence); oracles: C04 one response, C05 dispatch+mapping, C07 protocol shape, C18 client parsing; distinct = distinct (case, response class) pairs"}
+		rule: "request kind {access,get,call.m,call.new,call.zz,auth.m,auth.zz} x registration {none, other handlers only, exact, *, new, no-access} x payload {empty, {}, full, malformed, isHttp} x every handler script of length<=3 (4 thorough) over 14 actions, each on a fresh real service under the scheduler (exact quiescence); oracles: C04 one response, C05 dispatch+mapping, C07 protocol shape, C18 client parsing; distinct = distinct (case, response class) pairs"}
 }
 
-var c04Actions = []string{"ok", "err", "errplain", "notfound", "timeout", "event", "value", "panicErr", "panicPlain", "panicStr", "panic42", "setmeta", "resource"}
+var c04Actions = []string{"ok", "err", "errplain", "notfound", "timeout", "event", "value", "panicErr", "panicPlain", "panicStr", "panic42", "panicNilErr", "setmeta", "resource"}
 
 var c04Payloads = map[string]string{
 	"empty":     "",
